@@ -172,6 +172,7 @@ Verdict runC12(const Case &cs) {
     Outcome o = runParse(*b, codes, cf, po);
     v.parses++;
     std::string where = " [" + cf.str() + " tokens=" + std::to_string(codes.size()) + "] got " + o.str().substr(0, 400);
+    if (o.capped) { abnormal = true; v.labels.insert("memory-cap"); continue; }
     if (o.hook.alt_explosion) {
       abnormal = true;
       if (kfListed("KF-C12-all-parses-translation-explosion")) { v.known = "KF-C12-all-parses-translation-explosion"; if (v.st == V_PASS) v.st = V_KNOWN; v.labels.insert("attributed:KF-C12-all-parses-translation-explosion"); continue; }
